@@ -30,7 +30,8 @@ TECHNIQUE = ("stateless exploration of every construct / declare / evaluate / in
              "the real library, compared with an append-only reference log")
 RULE = ("cases = operation histories ending in an evaluation or a symbolic construction (a history ending otherwise adds "
         "no observation to its prefix), every enabled sequence up to the depth bound; non-trivial = an instance is "
-        "constructed between the declaration and an evaluation of some query, or after its first evaluation")
+        "constructed between the declaration and an evaluation of some query, or after its first evaluation"
+        ' Wave 7: @conds histories - a no-domain variable that several conditions mention (conjunction, disjunction, negated disjunction), constructions between evaluations.')
 ASSUMPTIONS = ["`so far` is read as: at the time the query is evaluated"]
 BATCH = 200
 TASKS_PER_CHILD = 6
